@@ -8,5 +8,6 @@ export PATH="$(go1.26 env GOROOT)/bin:$PATH"
 mkdir -p "$here/bin" "$here/evidence"
 (cd "$here/checker" && go build -o "$here/bin/verifcheck" .)
 (cd /repo && go build ./... ) || true
-(cd /repo && go list -export -deps ./... >/dev/null 2>&1) || true
+# the loader runs 'go list -export' with -trimpath so that scratch copies of the tree (mutation self-test) share the cache
+(cd /repo && GOFLAGS='-mod=mod -trimpath' go list -export -deps ./... >/dev/null 2>&1) || true
 echo setup done
